@@ -14,6 +14,7 @@ import (
 	"fmt"
 	"os"
 	"regexp"
+	"strings"
 	"testing"
 )
 
@@ -102,6 +103,24 @@ func TestVerifReplayParseBody(t *testing.T) {
 			}
 			refused("C11.t", "body that ends after the proof lines (no blank separator)", encode(n, hs))
 			refused("C11.t", "body that ends inside a proof line", encode(n, hs)+"AAAA")
+		}
+	}
+	// lines that do not fit bufio's 4096-byte line buffer come back from ReadLine in pieces: they must be refused, not read
+	// as several lines (a 4096-byte line followed by the checkpoint has NO blank separator; a long non-base64 line is not
+	// two hashes; a 4096-character old-size line is not "old 1" plus a hash)
+	for name, body := range map[string]string{
+		"4096-byte proof line and no blank separator":      "old 7\n" + strings.Repeat("A", 4096) + "\n" + cp,
+		"long proof line that is not base64 as a whole":    "old 7\n" + strings.Repeat("A", 4092) + "QQ==QQ==" + "\n\n" + cp,
+		"old-size line of 4100 characters":                 "old " + strings.Repeat("0", 4091) + "12345\n\n" + cp,
+		"8000-byte proof line":                             "old 7\n" + strings.Repeat("A", 8000) + "\n\n" + cp,
+	} {
+		size, proof, got, err := parseBody(bytes.NewBufferString(body))
+		if err == nil {
+			why := fmt.Sprintf("%s: accepted as (old %d, %d hashes, checkpoint of %d bytes)", name, size, len(proof), len(got))
+			fail("C11.long", why)
+			fail("C11.t", why)
+			fail("C11.b", why)
+			fail("C11.w", why)
 		}
 	}
 	// a reader that fails with an I/O error after i bytes: whatever is returned with an error must be the zero values
